@@ -651,7 +651,7 @@ def run_check(prop, tier, only=None, jobs=None, seed=0):
         print("VIOLATION property=%s replay=%s" % (prop, wpath))
     for h, why in inconclusive:
         print("INCONCLUSIVE property=%s harness=%s: %s" % (prop, h["name"], why))
-    print("%s %s: %d harnesses, %d CBMC properties, wall %.0fs" % (prop, tier, len(sel), evaluations, wall))
+    print("%s %s: %d Kani harnesses%s, %d solver-decided checks/inputs, wall %.0fs" % (prop, tier, len(sel), " + mirsym" if mirsym else "", evaluations, wall))
     if vio_out:
         return 1
     if inconclusive:
